@@ -559,3 +559,9 @@ Proof.
       * intros x Hx. apply in_map_iff in Hx. destruct Hx as (v & <- & Hv). auto.
       * intros x Hx. apply in_map_iff in Hx. destruct Hx as (v & <- & Hv). auto.
 Qed.
+
+(* THE order of build_ranked_graph is accepted by the acceptor: requiring the implementation's order to
+   equal [kahn]'s (the documented insertion-order tie-break) is a strengthening of the validity check, so
+   every theorem about accepted orders applies to it. *)
+Lemma kahn_order_accepted g o : rg_wf g -> kahn g = KOk o -> valid_ranking g o = true.
+Proof. intros Hwf H. apply valid_ranking_accepts. apply kahn_sound; auto. Qed.
